@@ -146,3 +146,36 @@ def check_binding(ctx, lib, rid_prefix, methods, name_of, self_names, expected_r
             n_ok += 1
             ctx.ok(rid2, "%s ~ %s" % (b.path, setter), {"writes": w, "stored_iff": "%s == %s" % (atom, val), "error": msg}, b.loc())
     return n_ok
+
+
+def cross_view(ctx, rid, lib, other_view="default"):
+    """VIEW-1: the library core analysed in this view is the same program as in the default view: every function
+    reachable from RegExpBuilder::build has an identical MIR dump in both views (so the per-property results obtained on
+    the default view carry over to the binding's build)."""
+    import hashlib
+    import json
+    from sa import callgraph
+    other = common.view(ctx, other_view).lib
+    cg = callgraph.CallGraph(lib)
+    reach = cg.reachable([common.BUILDER + "::build"])
+    n = 0
+    diff = []
+    missing = []
+    for p in sorted(reach):
+        a = lib.body(p)
+        b = other.body(p)
+        if b is None:
+            missing.append(p)
+            continue
+        import re as _re
+        canon = lambda m: _re.sub(r"\b[a-z_0-9]+::__rt::(core|std|alloc)::", r"\1::", json.dumps(m, sort_keys=True))
+        ha = hashlib.sha1(canon(a.mir).encode()).hexdigest()
+        hb = hashlib.sha1(canon(b.mir).encode()).hexdigest()
+        n += 1
+        if ha != hb:
+            diff.append(p)
+    if diff or missing:
+        ctx.undecided(rid, "core functions", "the library core differs between this view and the %s view (%s): results established on the %s view do not carry over"
+                      % (other_view, (diff + missing)[:4], other_view))
+    else:
+        ctx.ok(rid, "core identical in both views", {"functions_compared": n})
